@@ -271,6 +271,19 @@ def _constructors(ctx, eng):
                               "IsoMapper2D(Arg2D('y'), Interpolator1DArray(np.log10(n), sen[0], 'cubic', extrapolation_type_1d, INFINITY))" in src and
                               "IsoMapper2D(Arg2D('x'), Interpolator1DArray(np.log10(e), sen[:, 0], 'cubic', extrapolation_type_1d, INFINITY))" in src,
                               'single-point axes select the constant / 1-d interpolant on the right slice'))
+    # BeamCXPEC: q_eff(E) converted to W m^3, the four secondary scans normalised by q_ref; an axis with a single point contributes the
+    # CONSTANT stored value of that (normalised) scan, not 1
+    src = ' '.join(ast.unparse(tree.find_func(RC, "BeamCXPEC.__init__")).split())
+    out.append(structural('constructor/BeamCXPEC.energy_scan_photon_to_joule', PROP, "qeb = np.log10(PhotonToJ.to(data['qeb'], wavelength))" in src, 'qeb -> W m^3, log10'))
+    for key, var, axis in (("qti", "qti", "ti"), ("qni", "qni", "ni"), ("qz", "qzeff", "zeff"), ("qb", "qbmag", "bmag")):
+        out.append(structural('constructor/BeamCXPEC.%s_over_qref' % key, PROP, "%s = data['%s'] / qref" % (var, key) in src, '%s / qref' % key))
+        out.append(structural('constructor/BeamCXPEC.%s_interpolant_or_stored_constant' % key, PROP,
+                              "Interpolator1DArray(%s, %s, 'cubic', extrapolation_type, INFINITY) if len(%s) > 1 else Constant1D(%s[0])" % (axis, var, var, var) in src,
+                              'single-point axis: the constant stored value %s[0]' % var))
+    out.append(structural('constructor/BeamCXPEC.energy_interpolant', PROP,
+                          "self._eb = Interpolator1DArray(np.log10(eb), qeb, 'cubic', extrapolation_type_log, INFINITY) if len(qeb) > 1 else Constant1D(qeb[0])" in src, 'log-log cubic in energy'))
+    out.append(structural('constructor/BeamCXPEC.extrapolation_kinds', PROP, "extrapolation_type_log = 'quadratic' if extrapolate else 'none'" in src and
+                          "extrapolation_type = 'nearest' if extrapolate else 'none'" in src, "'none' iff not extrapolate"))
     return out
 
 
@@ -330,6 +343,37 @@ print(json.dumps({"bad": bad[:3], "nbad": len(bad)}))
             _REPLAY['h'] = run_native(ctx, code, timeout=300)
         out = _REPLAY['h']
         exp = 'the answer to a request does not depend on earlier requests to the same provider'
+        if out and out.get('nbad'):
+            return {'confirmed': True, 'input': out['bad'][0], 'observed': out, 'expected': exp}
+        return {'confirmed': False, 'input': None, 'observed': out, 'expected': exp}
+    if 'constructor/BeamCXPEC' in o.name or 'BeamCXPEC.evaluate' in o.name:
+        # tables with single-point secondary axes that store a value different from qref, checked at the grid points against
+        # qeb qti qni qz qb / qref^4 * hc / lambda computed independently
+        code = '''
+import numpy as np, itertools
+from scipy.constants import Planck, speed_of_light
+from cherab.openadas.rates.cx import BeamCXPEC
+bad = []
+wl = 529.0
+for single in itertools.product((False, True), repeat=4):
+    eb = np.array([1e3, 1e4, 5e4, 1e5]); qeb = np.array([1e-15, 3e-15, 2e-15, 8e-16]); qref = 2.5e-15
+    ax = {}
+    for name, sgl, pts in (("ti", single[0], [10., 100., 1000.]), ("ni", single[1], [1e18, 1e19, 1e20]), ("z", single[2], [1., 2., 4.]), ("b", single[3], [1., 3., 5.])):
+        x = np.array(pts[1:2] if sgl else pts)
+        ax[name] = (x, qref * (0.6 + 0.3 * np.arange(1, len(x) + 1)))
+    data = {"eb": eb, "qeb": qeb, "qref": qref, "ti": ax["ti"][0], "qti": ax["ti"][1], "ni": ax["ni"][0], "qni": ax["ni"][1],
+            "z": ax["z"][0], "qz": ax["z"][1], "b": ax["b"][0], "qb": ax["b"][1]}
+    for extrap in (False, True):
+        r = BeamCXPEC(1, wl, data, extrapolate=extrap)
+        for i, e in enumerate(eb):
+            got = r(e, ax["ti"][0][0], ax["ni"][0][0], ax["z"][0][0], ax["b"][0][0])
+            want = qeb[i] * ax["ti"][1][0] * ax["ni"][1][0] * ax["z"][1][0] * ax["b"][1][0] / qref ** 4 * Planck * speed_of_light / (wl * 1e-9)
+            if not abs(got - want) <= 1e-9 * abs(want):
+                bad.append({"single_point_axes(ti,ni,z,b)": list(single), "extrapolate": extrap, "energy": float(e), "rate": got, "expected": want}); break
+print(json.dumps({"bad": bad[:3], "nbad": len(bad)}))
+'''
+        out = run_native(ctx, code, timeout=300)
+        exp = 'rate at the grid points = qeb qti qni qz qb / qref^4 * hc / lambda'
         if out and out.get('nbad'):
             return {'confirmed': True, 'input': out['bad'][0], 'observed': out, 'expected': exp}
         return {'confirmed': False, 'input': None, 'observed': out, 'expected': exp}
